@@ -225,8 +225,18 @@ bool Units::UnitsImpl::performTestWithHistory(History &history, const UnitsConst
  *
  * @return Either @c true or @c false, depending if the units were successfully updated.
  */
-bool updateUnitMultiplier(const UnitsPtr &units, int direction, double &multiplier)
+bool updateUnitMultiplier(const UnitsPtr &units, int direction, double &multiplier, size_t depth = 0)
 {
+    // Note: units may (wrongly) reference one another in a circular fashion, in
+    //       which case we end up deeper than there are units in the model and
+    //       there is no multiplier to be computed.
+
+    auto unitsModel = owningModel(units);
+
+    if ((unitsModel != nullptr) && (depth > unitsModel->unitsCount())) {
+        return false;
+    }
+
     double localMultiplier = 0;
 
     if (units->isImport()) {
@@ -269,7 +279,7 @@ bool updateUnitMultiplier(const UnitsPtr &units, int direction, double &multipli
                 }
                 double branchMult = 0.0;
                 // Return false when we can't find a valid prefix.
-                if (!updateUnitMultiplier(refUnits, 1, branchMult)) {
+                if (!updateUnitMultiplier(refUnits, 1, branchMult, depth + 1)) {
                     return false;
                 }
                 // Make the direction positive on all branches, direction is only applied at the end.
